@@ -105,6 +105,25 @@ def eodIntervals (s : Sock) (ver : Nat) (e r y : UInt32) : Sock × Bool :=
     (s3, true)
   else (s, true)
 
+/-- `rtr_set_interval_mode(rtr_socket, option)` (rtr.c): only the four declared modes are accepted -/
+def setIntervalMode (s : Sock) (option : Int) : Sock :=
+  if option = Gen.RTR_INTERVAL_MODE_IGNORE_ANY ∨ option = Gen.RTR_INTERVAL_MODE_ACCEPT_ANY ∨
+     option = Gen.RTR_INTERVAL_MODE_DEFAULT_MIN_MAX ∨ option = Gen.RTR_INTERVAL_MODE_IGNORE_ON_FAILURE
+  then { s with ivMode := option } else s
+
+/-- what can happen to the timers of a socket during its life: an End of Data arrives, or the user
+    reconfigures the interval mode -/
+inductive HEv where
+  | eod (ver : Nat) (e r y : UInt32)
+  | setMode (option : Int)
+deriving DecidableEq, Repr
+
+def applyEv (s : Sock) : HEv → Sock
+  | .eod ver e r y => (eodIntervals s ver e r y).1
+  | .setMode o => setIntervalMode s o
+
+def runHistory (s : Sock) (h : List HEv) : Sock := h.foldl applyEv s
+
 /-- version handling of rtr_receive_pdu for a non-error PDU with version byte `ver`:
     live downgrade on the first PDU, then the version must match.  `none` = PDU refused. -/
 def receiveVersion (s : Sock) (ver : Nat) : Sock × Bool :=
